@@ -40,6 +40,7 @@ impl Object {
 
 //@item broker/src/broker/service.rs struct Service
 impl Service {
+    //@include _shared/service_specs.rs
     //@fn-from broker_service broker/src/broker/service.rs Service::remove_function_call
 }
 
